@@ -300,7 +300,29 @@ func Layers(s *core.Source, o LayerOpts) mvt.Layers {
 				f.Properties[fmt.Sprintf("k%03d", i)] = float64(i) + 0.5
 			}
 		}
-		if o.Repetitive && len(l.Features) > 0 && s.Chance(1, 120, "repetitive") {
+		if o.Repetitive && len(l.Features) > 0 && s.Chance(1, 300, "fat") {
+			// a tile well over 64 KiB: several long distinct values, or tens of thousands of distinct values
+			f := l.Features[0]
+			if f.Properties == nil {
+				f.Properties = geojson.Properties{}
+			}
+			if s.Bool("manyvalues") {
+				for i := 0; i < 17000; i++ {
+					f.Properties[fmt.Sprintf("v%05d", i)] = float64(i) + 0.25
+				}
+			} else {
+				for i := 0; i < 6; i++ {
+					f.Properties[fmt.Sprintf("long%d", i)] = strings.Repeat(string(rune('a'+i)), 20000)
+				}
+			}
+		}
+		fat := false
+		for _, f := range l.Features {
+			if len(f.Properties) > 1000 {
+				fat = true
+			}
+		}
+		if o.Repetitive && !fat && len(l.Features) > 0 && s.Chance(1, 120, "repetitive") {
 			// real tiles are repetitive: the same feature many times over (compresses far better than 40:1)
 			n := []int{100, 1200}[s.Intn(2, "reps")]
 			f := l.Features[len(l.Features)-1]
